@@ -3,11 +3,17 @@
 (* real cmap.Map ("map"), cmap.Atomic/AtomicValue ("atomic") and slice.Slice *)
 (* ("slice") against the sequential objects SeqMap, AtomicMap and SeqSlice.  *)
 (*                                                                           *)
-(* Events (one JSON object per line, one history per reset line):            *)
+(* Events (one JSON object per line, one history per reset line; the order  *)
+(* of the lines is the order of one global atomic sequence number):          *)
 (*   reset {end}                                                             *)
-(*   call  {id, obj, op, k, v, n, h, items}   appended, under one mutex,     *)
-(*                                            immediately BEFORE the call    *)
+(*   call  {id, obj, op, k, v, n, h, items}   stamped immediately BEFORE the *)
+(*                                            call                           *)
 (*   ret   {id, res}                          immediately AFTER the return   *)
+(*   hung  {ids}     the listed calls had not returned when the watchdog     *)
+(*                   gave up (2 s).  Every operation of these objects is     *)
+(*                   total and waits for nothing but operations in progress; *)
+(*                   so NO rule consumes a hung record: a history that       *)
+(*                   contains one is never accepted.                         *)
 (* so the order of the records is a sound real-time order: a ret that        *)
 (* precedes a call in the file really happened before it.                    *)
 (*                                                                           *)
@@ -45,10 +51,12 @@ HasRet(id) == \E j \in (l + 2)..Trace[tr].end : Trace[j].ev = "ret" /\ Trace[j].
 (* the harness to name the first unexplained result) carries its eventual    *)
 (* result in the field pres; it may or may not take effect within the prefix *)
 TCall == /\ HasNext /\ Ev.ev = "call" /\ Ev.id \notin DOMAIN ops
-         /\ ops' = (Ev.id :> [e |-> Ev, res |-> IF HasRet(Ev.id) THEN ResOf(Ev.id) ELSE Ev.pres, lin |-> FALSE]) @@ ops
+         /\ ops' = (Ev.id :> [e |-> Ev, lin |-> FALSE,
+                              known |-> HasRet(Ev.id) \/ "pres" \in DOMAIN Ev,     \* FALSE: the call never returned (see hung)
+                              res |-> IF HasRet(Ev.id) THEN ResOf(Ev.id) ELSE IF "pres" \in DOMAIN Ev THEN Ev.pres ELSE 0]) @@ ops
          /\ l' = l + 1 /\ UNCHANGED <<tr, st>>
 
-TLin(id) == /\ HasNext /\ ~ops[id].lin
+TLin(id) == /\ HasNext /\ ~ops[id].lin /\ ops[id].known
             /\ Ok(ops[id].e, ops[id].res)
             /\ st' = Eff(ops[id].e, ops[id].res)
             /\ ops' = [ops EXCEPT ![id].lin = TRUE]
